@@ -67,6 +67,10 @@ def coq_build(clean=False, timeout=3000):
         err = translate_units.regenerate()            # Model/UnitTable.v likewise
         if err:
             log += "translate_units: " + err + "\n"
+        from . import translate_enums
+        err = translate_enums.regenerate()            # Model/Enums.v likewise
+        if err:
+            log += "translate_enums: " + err + "\n"
         mk = COQ / "Makefile"
         if clean and mk.exists():
             subprocess.run(["make", "clean"], cwd=COQ, stdout=subprocess.DEVNULL, stderr=subprocess.DEVNULL)
@@ -410,6 +414,7 @@ def decide(run, items, imports, accept, oracle, known=None, max_reports=5, shard
     terms = ["%s %s %s" % (accept, it["gcase"], it["gobs"]) for it in items]
     res = run_cases(run.pid, imports, terms, shard=shard)
     reports = 0
+    pending = []
     for it, (ok, tag) in zip(items, res):
         run.count("branch_%d" % tag)
         if it.get("nontrivial", True) and tag != 0:
@@ -424,6 +429,10 @@ def decide(run, items, imports, accept, oracle, known=None, max_reports=5, shard
             run.known(*k)
             continue
         holds, name = oracle(it)
+        pending.append((it, tag, holds, name))
+    # the replays written are limited to max_reports: cases on which the property itself is seen to fail come first
+    pending.sort(key=lambda p: p[2] is not False)
+    for it, tag, holds, name in pending:
         if reports < max_reports:
             reports += 1
             run.violation({"correspondence": accept, "case": it["case"], "observed": it["obs"],
